@@ -245,7 +245,15 @@ pub fn spell_int(rng: &mut Rng, v: &str, plain: bool) -> Spelled {
         16 => "0x",
         _ => "",
     };
-    let suffix = if plain || rng.chance(2, 3) { "" } else { *rng.pick(&INT_SUFFIXES) };
+    // (digits followed by `f32` / `f64` and nothing that makes a float are an integer literal with that
+    // suffix: `1f32`; after hex digits the same letters are digits)
+    let suffix = if plain || rng.chance(2, 3) {
+        ""
+    } else if radix != 16 && rng.chance(1, 5) {
+        *rng.pick(&["f32", "f64", "zz"])
+    } else {
+        *rng.pick(&INT_SUFFIXES)
+    };
     // a hex literal followed by a suffix starting with a hex digit does not exist for ints (u/i only)
     let text = format!("{}{}{}{}", if neg { "-" } else { "" }, prefix, digits, suffix);
     Spelled {
